@@ -182,7 +182,7 @@ def gen_case(rng):
         valuations.append(v)
     return {
         "names": names, "layout": layout, "conds": conds, "unlesses": unlesses,
-        "valuations": valuations, "style": style,
+        "valuations": valuations, "style": style, "via_any": rng.random() < 0.2,
     }
 
 
@@ -216,7 +216,11 @@ def render(case, k):
         kw.append("cond=[" + ", ".join(ent(e) for e in case["conds"]) + "]" if len(case["conds"]) != 1 else "cond=" + ent(case["conds"][0]))
     if case["unlesses"]:
         kw.append("unless=[" + ", ".join(ent(e) for e in case["unlesses"]) + "]" if len(case["unlesses"]) != 1 else "unless=" + ent(case["unlesses"][0]))
-    L.append("    go = s0.to.itself(" + ", ".join(kw + ["on=lambda: 'FIRED'"]) + ")")
+    if case.get("via_any"):
+        # the same guarded self-transition declared through from_.any() (copied per source state)
+        L.append("    go = s0.from_.any(" + ", ".join(kw + ["on=lambda: 'FIRED'"]) + ")")
+    else:
+        L.append("    go = s0.to.itself(" + ", ".join(kw + ["on=lambda: 'FIRED'"]) + ")")
     L.append("")
     L.append(f"class Mod_{k}:")
     L.append("    state = None")
